@@ -194,7 +194,7 @@ theorem VW.ne_pos_of_coord?_none {v : VW} {n : Nat} (h : v.Inv n) {p c r : Nat} 
   intro he; rw [he, VW.coord?_pos h hc hr] at hp; cases hp
 
 /-- the positions of row window `r` are the cells `(c, r)` -/
-theorem VW.rowWin_contains_iff {v : VW} {n : Nat} (h : v.Inv n) {r : Nat} (hr : r < v.numRows) (p : Nat) :
+theorem VW.rowWin_contains_iff (v : VW) (r p : Nat) :
     (v.rowWin r).contains p = true ↔ ∃ c, c < v.numCols ∧ p = v.pos c r := by
   rw [Win.contains_iff]
   simp only [VW.rowWin, VW.pos]
@@ -206,7 +206,7 @@ theorem VW.rowWin_contains_iff {v : VW} {n : Nat} (h : v.Inv n) {r : Nat} (hr : 
 /-- cell `(c, r')` lies in row window `r` iff `r' = r` -/
 theorem VW.rowWin_contains_pos {v : VW} {n : Nat} (h : v.Inv n) {r c r' : Nat} (hr : r < v.numRows)
     (hc : c < v.numCols) (hr' : r' < v.numRows) : (v.rowWin r).contains (v.pos c r') = true ↔ r' = r := by
-  rw [VW.rowWin_contains_iff h hr]
+  rw [VW.rowWin_contains_iff]
   constructor
   · rintro ⟨c2, hc2, he⟩; exact (VW.pos_inj h hc hr' hc2 hr he).2
   · rintro rfl; exact ⟨c, hc, rfl⟩
@@ -216,8 +216,14 @@ theorem VW.rowWin_contains_of_none {v : VW} {n : Nat} (h : v.Inv n) {r p : Nat} 
     (hp : v.coord? p = none) : (v.rowWin r).contains p = false := by
   cases hb : (v.rowWin r).contains p
   · rfl
-  · obtain ⟨c, hc, he⟩ := (VW.rowWin_contains_iff h hr p).1 hb
+  · obtain ⟨c, hc, he⟩ := (VW.rowWin_contains_iff v r p).1 hb
     exact absurd he (VW.ne_pos_of_coord?_none h hp hc hr)
+
+/-- `row[c]` (unchecked) of a row window is the cell `(c, r)` -/
+theorem VW.rowWin_getIdx (v : VW) {c : Nat} (r : Nat) (hc : c < v.numCols) :
+    (v.rowWin r).getIdx c = .ok (v.pos c r) := by
+  rw [Win.getIdx_ok _ (by simpa [VW.rowWin] using hc)]
+  simp [VW.rowWin, VW.pos]
 
 /-- distinct row windows are disjoint -/
 theorem VW.rowWin_disjoint {v : VW} {n : Nat} (h : v.Inv n) {r1 r2 : Nat} (hne : r1 ≠ r2) :
@@ -305,5 +311,359 @@ theorem gather_mapCells_comp {v : VW} (buf : List α) (h : v.Inv buf.length) (f 
     gather (gather buf (v.mapCells f)) (v.mapCells g) = gather buf (v.mapCells (fun cr => f (g cr))) := by
   rw [gather_gather buf _ _ (fun _ hp => VW.mapCells_lt h f hf hp) (fun _ hp => VW.mapCells_lt h g hg hp)]
   exact gather_congr buf _ _ (fun p _ => VW.mapCells_comp h f g hg p)
+
+/-! ### `ptr::swap` of two cells and `swap_with_slice` of two rows as cell permutations -/
+
+/-- exchanging the contents of two cell positions is the cell transposition -/
+theorem VW.swapPosMap_cells {v : VW} {n : Nat} (h : v.Inv n) {a b : Nat × Nat}
+    (ha1 : a.1 < v.numCols) (ha2 : a.2 < v.numRows) (hb1 : b.1 < v.numCols) (hb2 : b.2 < v.numRows) (p : Nat) :
+    swapPosMap (v.pos a.1 a.2) (v.pos b.1 b.2) p
+      = v.mapCells (fun cr => if cr = a then b else if cr = b then a else cr) p := by
+  cases hq : v.coord? p with
+  | none =>
+    rw [VW.mapCells_of_none _ hq]
+    have h1 := VW.ne_pos_of_coord?_none h hq ha1 ha2
+    have h2 := VW.ne_pos_of_coord?_none h hq hb1 hb2
+    simp [swapPosMap, h1, h2]
+  | some cr =>
+    obtain ⟨c, r⟩ := cr
+    obtain ⟨he, hc, hr⟩ := VW.coord?_eq_some hq
+    rw [VW.mapCells_of_some _ hq]
+    subst he
+    unfold swapPosMap
+    by_cases h1 : (c, r) = a
+    · subst h1; simp
+    · have h1' : v.pos c r ≠ v.pos a.1 a.2 := fun he =>
+        h1 (Prod.ext (VW.pos_inj h hc hr ha1 ha2 he).1 (VW.pos_inj h hc hr ha1 ha2 he).2)
+      by_cases h2 : (c, r) = b
+      · subst h2; simp [h1, h1']
+      · have h2' : v.pos c r ≠ v.pos b.1 b.2 := fun he =>
+          h2 (Prod.ext (VW.pos_inj h hc hr hb1 hb2 he).1 (VW.pos_inj h hc hr hb1 hb2 he).2)
+        simp [h1, h2, h1', h2']
+
+/-- exchanging two distinct row windows is the row transposition -/
+theorem VW.swapWinMap_rows {v : VW} {n : Nat} (h : v.Inv n) {r1 r2 : Nat} (hr1 : r1 < v.numRows)
+    (hr2 : r2 < v.numRows) (hne : r1 ≠ r2) (p : Nat) :
+    swapWinMap (v.rowWin r1) (v.rowWin r2) p = v.mapCells (fun cr => (cr.1, swapIdx r1 r2 cr.2)) p := by
+  cases hq : v.coord? p with
+  | none =>
+    rw [VW.mapCells_of_none _ hq]
+    simp [swapWinMap, VW.rowWin_contains_of_none h hr1 hq, VW.rowWin_contains_of_none h hr2 hq]
+  | some cr =>
+    obtain ⟨c, r⟩ := cr
+    obtain ⟨he, hc, hr⟩ := VW.coord?_eq_some hq
+    rw [VW.mapCells_of_some _ hq]
+    subst he
+    unfold swapWinMap
+    by_cases h1 : r = r1
+    · subst h1
+      rw [if_pos ((VW.rowWin_contains_pos h hr hc hr).2 rfl)]
+      simp only [swapIdx, if_true, VW.rowWin, VW.pos]; omega
+    · have c1 : ¬ (v.rowWin r1).contains (v.pos c r) = true := fun hh =>
+        h1 ((VW.rowWin_contains_pos h hr1 hc hr).1 hh)
+      rw [if_neg c1]
+      by_cases h2 : r = r2
+      · subst h2
+        rw [if_pos ((VW.rowWin_contains_pos h hr hc hr).2 rfl)]
+        simp only [swapIdx, if_neg h1, if_true, VW.rowWin, VW.pos]; omega
+      · have c2 : ¬ (v.rowWin r2).contains (v.pos c r) = true := fun hh =>
+          h2 ((VW.rowWin_contains_pos h hr2 hc hr).1 hh)
+        rw [if_neg c2]
+        simp [swapIdx, h1, h2]
+
+theorem swapIdx_comm (a b i : Nat) : swapIdx a b i = swapIdx b a i := by
+  unfold swapIdx
+  by_cases h1 : i = a
+  · by_cases h2 : i = b
+    · rw [if_pos h1, if_pos h2, ← h1, ← h2]
+    · rw [if_pos h1, if_neg h2, if_pos h1]
+  · by_cases h2 : i = b
+    · rw [if_neg h1, if_pos h2, if_pos h2]
+    · rw [if_neg h1, if_neg h2, if_neg h2, if_neg h1]
+
+theorem swapIdx_self (a i : Nat) : swapIdx a a i = i := by
+  unfold swapIdx
+  by_cases h1 : i = a <;> simp [h1]
+
+theorem swapIdx_lt {a b i k : Nat} (ha : a < k) (hb : b < k) (hi : i < k) : swapIdx a b i < k := by
+  unfold swapIdx
+  split
+  · exact hb
+  · split
+    · exact ha
+    · exact hi
+
+/-! ### `updCells` -/
+
+theorem VW.updCells_length (v : VW) (buf : List α) (f : Nat × Nat → Option α) :
+    (v.updCells buf f).length = buf.length := by
+  simp [VW.updCells]
+
+theorem VW.updCells_getElem? (v : VW) (buf : List α) (f : Nat × Nat → Option α) (p : Nat) :
+    (v.updCells buf f)[p]? = buf[p]?.map fun x =>
+      match v.coord? p with
+      | some cr => (f cr).getD x
+      | none => x := by
+  unfold VW.updCells
+  rw [List.getElem?_mapIdx]
+  cases buf[p]? <;> cases v.coord? p <;> rfl
+
+/-- positions that are not cells keep their content -/
+theorem VW.updCells_of_none {v : VW} (buf : List α) (f : Nat × Nat → Option α) {p : Nat}
+    (hp : v.coord? p = none) : (v.updCells buf f)[p]? = buf[p]? := by
+  rw [VW.updCells_getElem?]; simp [hp]
+
+/-- cell `(c,r)` becomes `f (c,r)` when that is `some`, else is kept -/
+theorem VW.updCells_pos {v : VW} (buf : List α) (h : v.Inv buf.length) (f : Nat × Nat → Option α) {c r : Nat}
+    (hc : c < v.numCols) (hr : r < v.numRows) :
+    (v.updCells buf f)[v.pos c r]? = (match f (c, r) with | some x => some x | none => buf[v.pos c r]?) := by
+  have hlt := VW.pos_lt h hc hr
+  rw [VW.updCells_getElem?, VW.coord?_pos h hc hr, List.getElem?_eq_getElem hlt]
+  cases hf : f (c, r) <;> simp [hf]
+
+/-- only the values of the cell function on cells matter -/
+theorem VW.updCells_congr (v : VW) (buf : List α) (f f' : Nat × Nat → Option α)
+    (hff : ∀ c r, c < v.numCols → r < v.numRows → f (c, r) = f' (c, r)) :
+    v.updCells buf f = v.updCells buf f' := by
+  apply List.ext_getElem?
+  intro p
+  rw [VW.updCells_getElem?, VW.updCells_getElem?]
+  cases hq : v.coord? p with
+  | none => rfl
+  | some cr =>
+    obtain ⟨c, r⟩ := cr
+    obtain ⟨_, hc, hr⟩ := VW.coord?_eq_some hq
+    simp only [hff c r hc hr]
+
+/-- overwriting nothing changes nothing -/
+theorem VW.updCells_none (v : VW) (buf : List α) : v.updCells buf (fun _ => none) = buf := by
+  apply List.ext_getElem?
+  intro p
+  rw [VW.updCells_getElem?]
+  cases v.coord? p <;> cases buf[p]? <;> simp
+
+/-- two overwrites in a row: the later one wins -/
+theorem VW.updCells_updCells (v : VW) (buf : List α) (f1 f2 : Nat × Nat → Option α) :
+    v.updCells (v.updCells buf f1) f2 = v.updCells buf (fun cr => (f2 cr).or (f1 cr)) := by
+  apply List.ext_getElem?
+  intro p
+  rw [VW.updCells_getElem?, VW.updCells_getElem?, VW.updCells_getElem?]
+  cases v.coord? p with
+  | none => cases buf[p]? <;> simp
+  | some cr => cases buf[p]? <;> cases f2 cr <;> simp
+
+/-! ### `writeWin` / `fillWin` -/
+
+theorem writeWin_length_of_inside (buf : List α) (w : Win) (vals : List α) (hin : w.off + w.len ≤ buf.length)
+    (hv : vals.length = w.len) : (writeWin buf w vals).length = buf.length := by
+  simp [writeWin, hv, Nat.min_eq_left (show w.off ≤ buf.length by omega)]; omega
+
+/-- cells inside the window come from `vals`, the others are kept -/
+theorem writeWin_getElem?_contains (buf : List α) (w : Win) (vals : List α) (hin : w.off + w.len ≤ buf.length)
+    (hv : vals.length = w.len) (p : Nat) :
+    (writeWin buf w vals)[p]? = if w.contains p then vals[p - w.off]? else buf[p]? := by
+  have hmin : min w.off buf.length = w.off := Nat.min_eq_left (by omega)
+  unfold writeWin
+  by_cases hc : w.contains p = true
+  · rw [if_pos hc]
+    obtain ⟨h1, h2⟩ := (Win.contains_iff w p).1 hc
+    rw [List.getElem?_append_left (by simp [hmin, hv]; omega),
+      List.getElem?_append_right (by simp [hmin]; omega)]
+    simp [hmin]
+  · rw [if_neg hc]
+    have hc' := (Win.contains_eq_false_iff w p).1 (by simpa using hc)
+    by_cases h1 : p < w.off
+    · rw [List.getElem?_append_left (by simp [hmin]; omega),
+        List.getElem?_append_left (by simp [hmin]; omega), List.getElem?_take, if_pos h1]
+    · rw [List.getElem?_append_right (by simp [hmin, hv]; omega), List.getElem?_drop]
+      simp only [List.length_append, List.length_take, hmin, hv]
+      congr 1; omega
+
+/-- writing a whole row is an overwrite of the cells of that row -/
+theorem VW.writeWin_row {v : VW} (buf : List α) (h : v.Inv buf.length) {r : Nat} (hr : r < v.numRows)
+    (vals : List α) (hv : vals.length = v.numCols) :
+    writeWin buf (v.rowWin r) vals = v.updCells buf (fun cr => if cr.2 = r then vals[cr.1]? else none) := by
+  apply List.ext_getElem?
+  intro p
+  rw [writeWin_getElem?_contains buf _ vals (VW.rowWin_inside h hr) hv]
+  cases hq : v.coord? p with
+  | none =>
+    rw [VW.updCells_of_none _ _ hq, VW.rowWin_contains_of_none h hr hq]; simp
+  | some cr =>
+    obtain ⟨c, r'⟩ := cr
+    obtain ⟨he, hc, hr'⟩ := VW.coord?_eq_some hq
+    subst he
+    rw [VW.updCells_pos buf h _ hc hr']
+    by_cases h1 : r' = r
+    · subst h1
+      rw [if_pos ((VW.rowWin_contains_pos h hr' hc hr').2 rfl)]
+      have : v.pos c r' - (v.rowWin r').off = c := by simp only [VW.rowWin, VW.pos]; omega
+      rw [this, List.getElem?_eq_getElem (by omega)]
+      simp
+    · have c1 : ¬ (v.rowWin r).contains (v.pos c r') = true := fun hh =>
+        h1 ((VW.rowWin_contains_pos h hr hc hr').1 hh)
+      rw [if_neg c1]; simp [h1]
+
+/-- `row.fill(x)` is an overwrite of the cells of that row -/
+theorem VW.fillWin_row {v : VW} (buf : List α) (h : v.Inv buf.length) {r : Nat} (hr : r < v.numRows) (x : α) :
+    fillWin buf (v.rowWin r) x = v.updCells buf (fun cr => if cr.2 = r then some x else none) := by
+  unfold fillWin
+  rw [VW.writeWin_row buf h hr _ (by simp [VW.rowWin])]
+  apply VW.updCells_congr
+  intro c r' hc _
+  simp [VW.rowWin, hc]
+
+/-! ### folding a per-row operation over the rows -/
+
+/-- per-row overwrites of rows `0 … k-1`, one after the other, are one overwrite -/
+theorem VW.foldl_rows_upd {v : VW} {n : Nat} (step : List α → Nat → List α) (F : Nat × Nat → Option α)
+    (hstep : ∀ b r, b.length = n → r < v.numRows →
+      step b r = v.updCells b (fun cr => if cr.2 = r then F cr else none))
+    (buf : List α) (hlen : buf.length = n) (k : Nat) (hk : k ≤ v.numRows) :
+    (List.range k).foldl step buf = v.updCells buf (fun cr => if cr.2 < k then F cr else none) := by
+  induction k with
+  | zero =>
+    have : (fun cr : Nat × Nat => if cr.2 < 0 then F cr else none) = fun _ => none := by
+      funext cr; simp
+    rw [this, VW.updCells_none]; rfl
+  | succ k ih =>
+    rw [List.range_succ, List.foldl_append, ih (by omega), List.foldl_cons, List.foldl_nil,
+      hstep _ k (by rw [VW.updCells_length]; exact hlen) (by omega), VW.updCells_updCells]
+    congr 1
+    funext cr
+    by_cases h1 : cr.2 = k
+    · rw [if_pos h1, if_neg (by omega), if_pos (by omega), Option.or_none]
+    · rw [if_neg h1, Option.none_or]
+      by_cases h2 : cr.2 < k
+      · rw [if_pos h2, if_pos (by omega)]
+      · rw [if_neg h2, if_neg (by omega)]
+
+/-- per-row permutations (new column `γ (c,r)` within row `r`) of rows `0 … k-1`, one after the other, are one cell
+    permutation -/
+theorem VW.foldlM_rows_perm {v : VW} {n : Nat} (h : v.Inv n) (step : List α → Nat → Res (List α))
+    (γ : Nat × Nat → Nat) (hγ : ∀ c r, c < v.numCols → r < v.numRows → γ (c, r) < v.numCols)
+    (hstep : ∀ b r, b.length = n → r < v.numRows →
+      step b r = .ok (gather b (v.mapCells (fun cr => if cr.2 = r then (γ cr, cr.2) else cr))))
+    (buf : List α) (hlen : buf.length = n) (k : Nat) (hk : k ≤ v.numRows) :
+    (List.range k).foldlM step buf
+      = .ok (gather buf (v.mapCells (fun cr => if cr.2 < k then (γ cr, cr.2) else cr))) := by
+  subst hlen
+  have hin : ∀ (P : Nat × Nat → Prop) [DecidablePred P] (c r : Nat), c < v.numCols → r < v.numRows →
+      ((fun cr : Nat × Nat => if P cr then (γ cr, cr.2) else cr) (c, r)).1 < v.numCols ∧
+      ((fun cr : Nat × Nat => if P cr then (γ cr, cr.2) else cr) (c, r)).2 < v.numRows := by
+    intro P _ c r hc hr
+    by_cases hp : P (c, r)
+    · simp only [if_pos hp]; exact ⟨hγ c r hc hr, hr⟩
+    · simp only [if_neg hp]; exact ⟨hc, hr⟩
+  induction k with
+  | zero =>
+    rw [gather_eq_self]
+    · rfl
+    · intro p _
+      apply VW.mapCells_eq_self
+      intro c r _ _; simp
+  | succ k ih =>
+    rw [List.range_succ, List.foldlM_append, ih (by omega)]
+    simp only [ok_bind, List.foldlM_cons, List.foldlM_nil]
+    rw [hstep _ k (gather_mapCells_length buf h _ (hin (fun cr => cr.2 < k))) (by omega)]
+    simp only [ok_bind, pure_eq]
+    rw [gather_mapCells_comp buf h _ _ (hin (fun cr => cr.2 < k)) (hin (fun cr => cr.2 = k))]
+    congr 1
+    apply gather_congr
+    intro p _
+    apply VW.mapCells_congr
+    intro c r _ _
+    by_cases h1 : r = k
+    · subst h1; simp
+    · by_cases h2 : r < k
+      · simp [h1, h2, Nat.lt_succ_of_lt h2]
+      · simp [h1, h2, show ¬ r < k + 1 by omega]
+
+/-! ### row cursors standing for the rows of a view; `Acc.Of` -/
+
+theorem cells_map_range_getElem? {β : Type} (f : Nat → β) (k j : Nat) :
+    ((List.range k).map f)[j]? = if j < k then some (f j) else none := by
+  by_cases h : j < k <;> simp [h]
+
+theorem cells_map_range_drop {β : Type} (f : Nat → β) (k j : Nat) :
+    ((List.range k).map f).drop j = (List.range (k - j)).map (fun i => f (j + i)) := by
+  apply List.ext_getElem?
+  intro i
+  rw [List.getElem?_drop, cells_map_range_getElem?, cells_map_range_getElem?]
+  by_cases h : i < k - j
+  · rw [if_pos h, if_pos (by omega)]
+  · rw [if_neg h, if_neg (by omega)]
+
+/-- the cursor `it` stands for the rows `r0, r0+1, …, numRows-1` of the view `v` (root buffer of `n` cells) -/
+structure RowsFrom (v : VW) (n : Nat) (it : Rows) (r0 : Nat) : Prop where
+  wf : it.WF (v.numRows - r0) n
+  abs : it.abs (v.numRows - r0) = (List.range (v.numRows - r0)).map fun j => v.rowWin (r0 + j)
+
+/-- `nth(j)` on a cursor standing for rows `r0…`: row `r0 + j` (or `None`), leaving rows `r0 + j + 1 …` -/
+theorem RowsFrom.nth {v : VW} {n : Nat} {it : Rows} {r0 : Nat} (m : Mode) (h : RowsFrom v n it r0)
+    (j : Nat) (hj : j < WORD) :
+    ∃ it', it.nth m j = .ok (if r0 + j < v.numRows then some (v.rowWin (r0 + j)) else none, it') ∧
+      RowsFrom v n it' (r0 + j + 1) := by
+  obtain ⟨it', he, hwf, habs⟩ := C08_nth m it (v.numRows - r0) n h.wf j hj
+  have hk : v.numRows - r0 - (j + 1) = v.numRows - (r0 + j + 1) := by omega
+  refine ⟨it', ?_, ?_, ?_⟩
+  · rw [he, h.abs]
+    simp only [Seq.nth, cells_map_range_getElem?]
+    by_cases hlt : r0 + j < v.numRows
+    · rw [if_pos hlt, if_pos (by omega)]
+    · rw [if_neg hlt, if_neg (by omega)]
+  · rw [← hk]; exact hwf
+  · rw [← hk, habs, h.abs]
+    simp only [Seq.nth, cells_map_range_drop]
+    apply List.map_congr_left
+    intro i _
+    congr 1; omega
+
+/-- `fold`/`for` over a cursor standing for rows `r0…` visits exactly those row windows, in order -/
+theorem RowsFrom.collect {v : VW} {n : Nat} {it : Rows} {r0 : Nat} (h : RowsFrom v n it r0) :
+    it.collect (it.v.len + 2) = .ok ((List.range (v.numRows - r0)).map fun j => v.rowWin (r0 + j)) := by
+  rw [← h.abs]
+  apply C08_fold it _ n h.wf
+  have hl := h.wf.len
+  by_cases hk : v.numRows - r0 = 0
+  · omega
+  · rw [if_neg hk] at hl
+    have hc := h.wf.cols_pos hk
+    have : v.numRows - r0 - 1 ≤ (v.numRows - r0 - 1) * (it.cols + it.skip) :=
+      Nat.le_mul_of_pos_right _ (by omega)
+    omega
+
+theorem Acc.Of.rowsFrom {a : Acc} {v : VW} {n : Nat} (ha : a.Of v n) : RowsFrom v n a.rows 0 := by
+  refine ⟨ha.wf, ?_⟩
+  rw [Nat.sub_zero, ha.abs]
+  apply List.map_congr_left
+  intro r _
+  simp [VW.rowWin]
+
+/-- `rows_mut().nth(r)` of a receiver: the window of row `r` (or `None`), leaving the rows below it -/
+theorem Acc.Of.nth_row {a : Acc} {v : VW} {n : Nat} (m : Mode) (ha : a.Of v n) (r : Nat) (hr : r < WORD) :
+    ∃ it', a.rows.nth m r = .ok (if r < v.numRows then some (v.rowWin r) else none, it') ∧
+      RowsFrom v n it' (r + 1) := by
+  simpa using ha.rowsFrom.nth m r hr
+
+/-- `for r in rows_mut()` of a receiver visits the row windows top to bottom -/
+theorem Acc.Of.collect_rows {a : Acc} {v : VW} {n : Nat} (ha : a.Of v n) :
+    a.rows.collect (a.rows.v.len + 2) = .ok ((List.range v.numRows).map v.rowWin) := by
+  rw [ha.rowsFrom.collect, Nat.sub_zero]
+  congr 1
+  apply List.map_congr_left
+  intro r _
+  simp
+
+/-- the two row windows `rows_mut().nth(r1)` and then `.nth(r2 - r1 - 1)` hand out, for `r1 < r2` -/
+theorem Acc.Of.nth_row_pair {a : Acc} {v : VW} {n : Nat} (m : Mode) (ha : a.Of v n) {r1 r2 : Nat}
+    (hlt : r1 < r2) (hr2 : r2 < WORD) :
+    ∃ it' it'', a.rows.nth m r1 = .ok (if r1 < v.numRows then some (v.rowWin r1) else none, it') ∧
+      it'.nth m (r2 - r1 - 1) = .ok (if r2 < v.numRows then some (v.rowWin r2) else none, it'') := by
+  obtain ⟨it', h1, hf⟩ := ha.nth_row m r1 (by omega)
+  obtain ⟨it'', h2, _⟩ := hf.nth m (r2 - r1 - 1) (by omega)
+  have he : r1 + 1 + (r2 - r1 - 1) = r2 := by omega
+  rw [he] at h2
+  exact ⟨it', it'', h1, h2⟩
 
 end Toodee
